@@ -58,7 +58,7 @@ func (m *vertexMaker) key(i int) interface{} {
 	}
 }
 
-const inf = 1 << 40
+const inf = 1 << 60
 
 // refGraph is the harness's own adjacency matrix (weight -1 = absent).
 type refGraph struct {
@@ -367,6 +367,26 @@ func runC18(c *CaseCtx) (res CaseResult) {
 			}
 		}
 		res.obs("large_weight_graphs", 1)
+	}
+	if c.Idx%16 == 7 {
+		// weights and path sums beyond the int32 range (edge weights are
+		// plain ints): values around 2^31 and up to 2^40
+		ref = randomRef(r, 5)
+		for i := range ref.w {
+			for j := range ref.w[i] {
+				if ref.w[i][j] >= 0 {
+					switch r.Intn(4) {
+					case 0:
+						ref.w[i][j] = 1<<31 - 3 + r.Intn(6)
+					case 1:
+						ref.w[i][j] = 1<<32 + r.Intn(5)
+					case 2:
+						ref.w[i][j] = r.Intn(1 << 40)
+					}
+				}
+			}
+		}
+		res.obs("huge_weight_graphs", 1)
 	}
 	vm := &vertexMaker{kind: r.Intn(4)}
 	res.Key = ref.String()
@@ -707,7 +727,7 @@ func init() {
 			"Reverse (view sharing the model; Reverse().Reverse() is compared with the original); int/string/struct/hashable-pointer vertices. After EVERY operation and for every live handle: Vertices() = model set; OutEdges/InEdges = model successors/predecessors; " +
 			"VerifSnapshot: in-adjacency is exactly the transpose of out-adjacency with equal weights and the vertex table has exactly their keys; Vertex(id) non-nil iff present; at the end Dijkstra distances equal Floyd-Warshall on the model (last weight wins). " +
 			"One case in 10 checks mirror consistency and copy independence on the resolver's live graphs. non-trivial = sequence with >= 10 operations including a Remove/RemoveEdge and a Copy or Reverse",
-		Assumptions: []string{"edges are only added between present vertices and only present vertices are removed (the property is silent about absent ones)", "which Go object represents a re-added vertex is not checked (documented one way, implemented another, property silent)"},
+		Assumptions: []string{"an edge operation that names an absent vertex, and removing an absent vertex, are expected to do nothing (as the package documents)", "which Go object represents a re-added vertex is not checked (documented one way, implemented another, property silent)"},
 		Run:         runC19,
 	})
 }
@@ -831,6 +851,43 @@ func runC19(c *CaseCtx) (res CaseResult) {
 			return p
 		}()
 		op := r.Intn(12)
+		if r.Intn(12) == 0 {
+			// an edge operation naming an absent vertex (or removing one)
+			// does nothing — and must not disturb anything
+			var absent []int
+			for v := 0; v < nv; v++ {
+				if !h.m.verts[v] {
+					absent = append(absent, v)
+				}
+			}
+			if len(absent) > 0 {
+				a := pick(r, absent)
+				b := r.Intn(nv)
+				switch r.Intn(5) {
+				case 0:
+					h.g.AddEdge(vm.make(a), vm.make(b))
+					trace = append(trace, fmt.Sprintf("%s.AddEdge(absent %d,%d)", h.name, a, b))
+				case 1:
+					h.g.AddEdgeWeighted(vm.make(b), vm.make(a), r.Intn(10))
+					trace = append(trace, fmt.Sprintf("%s.AddEdgeWeighted(%d,absent %d)", h.name, b, a))
+				case 2:
+					h.g.RemoveEdge(vm.make(a), vm.make(b))
+					trace = append(trace, fmt.Sprintf("%s.RemoveEdge(absent %d,%d)", h.name, a, b))
+				case 3:
+					h.g.RemoveEdge(vm.make(b), vm.make(a))
+					trace = append(trace, fmt.Sprintf("%s.RemoveEdge(%d,absent %d)", h.name, b, a))
+				default:
+					h.g.Remove(vm.make(a))
+					trace = append(trace, fmt.Sprintf("%s.Remove(absent %d)", h.name, a))
+				}
+				res.Evals++
+				res.obs("operations_naming_an_absent_vertex", 1)
+				if !checkAll() {
+					break
+				}
+				continue
+			}
+		}
 		switch {
 		case op <= 1 || (len(present) == 0 && op <= 8):
 			v := r.Intn(nv)
